@@ -61,6 +61,7 @@ class Session:
 
         self.can_decrypt = False
         self.client_hello_seen = False
+        self.tls_version = None
 
         self.server_cipher_change = False
         self.client_cipher_change = False
@@ -297,12 +298,20 @@ class Session:
                 logging.warning(f"Could not decrypt Record: Handshake finished")
             return
 
+        if len(record.binary) == 0:
+            return
+
         match record.binary[0]:
             # client Hello
             case 0x01:
                 self.handle_tls_client_hello(record)
             case 0x02:
-                self.handle_tls_server_hello(record)
+                try:
+                    self.handle_tls_server_hello(record)
+                except Exception as e:
+                    # truncated or damaged ServerHello, ServerHello without ClientHello, unusable secrets
+                    logging.warning(f"Could not handle ServerHello, session cannot be decrypted")
+                    self.can_decrypt = False
             # ignore the others for now (in TLS 1.3 in application Records)
             case _:
                 try:
@@ -453,7 +462,8 @@ class Session:
 
             # Alert Record
             case 0x15:
-                self.handle_alert(record.binary[0])
+                if len(record.binary) > 0:
+                    self.handle_alert(record.binary[0])
                 if self.exp_meta:
                     self.application_traffic.append((record.raw, record, isserver))
 
